@@ -17,10 +17,10 @@ import (
 
 type libFn func(i *interpreter, fr *frame, args []value) (value, bool)
 
-var libIntrinsics map[string]libFn
+var libIntrinsics = map[string]libFn{}
 
 func init() {
-	libIntrinsics = map[string]libFn{
+	base := map[string]libFn{
 		"fmt.Sprintf":  libSprintf,
 		"fmt.Errorf":   libErrorf,
 		"fmt.Sprint":   libSprint,
@@ -79,6 +79,8 @@ func init() {
 		// pointers, so both helpers are the identity on them.
 		"github.com/spf13/cast.indirect":                  castIndirect,
 		"github.com/spf13/cast.indirectToStringerOrError": castIndirect,
+		"internal/stringslite.Clone": func(i *interpreter, fr *frame, a []value) (value, bool) { return a[0], true },
+		"strings.Clone":              func(i *interpreter, fr *frame, a []value) (value, bool) { return a[0], true },
 		"(*sync.Pool).Get":        poolGet,
 		"(*sync.Pool).Put":        poolPut,
 		"(*sync.Mutex).Lock":      noop,
@@ -97,9 +99,9 @@ func init() {
 		"math.Abs":                symGuard("math.Abs"),
 		"unicode/utf8.ValidString": nil,
 	}
-	for k, v := range libIntrinsics {
-		if v == nil {
-			delete(libIntrinsics, k)
+	for k, v := range base {
+		if v != nil {
+			libIntrinsics[k] = v
 		}
 	}
 }
